@@ -1348,7 +1348,7 @@ def exec_histens(ctx, case):
         elif edit == "ens-rotate[stack]":
             e.rotate(np.array([N.rot_axis_angle(case["prot"][0], case["prot"][1] + 0.3 * j) for j in range(nc)]))
         elif edit == "ens-center_at_core":
-            e.center_at_core([0, 1, 2])
+            e.center_at_core([int(x) for x in case.get("core", [0, 1, 2])])
         elif edit == "other-conformer-translate":
             e[(k + 1) % nc].translate(np.array(case["pvec"], dtype=float))
         elif edit != "none":
@@ -1400,7 +1400,7 @@ def part_histens(ctx, spec):
     topo = _topo("ens", name)
     nc, na = e.coords.shape[0], e.coords.shape[1]
     lat = N.lattice_vectors(_G(ctx))
-    sels = [topo.heavy(), [na - 1, 0, na // 2]]
+    sels = [topo.heavy(), sorted({na - 1, 0, na // 2}, reverse=True)]
     for k in range(nc):
         for ei, edit in enumerate(HISTENS_EDITS):
             for oi, op in enumerate(HISTENS_OPS):
@@ -1416,6 +1416,7 @@ def part_histens(ctx, spec):
                     "rot": [N.lst(lat[(5 * t + 2) % 26]), ANGLES[3 + t % 8]],
                     "pvec": N.lst(lat[(11 * t + 17) % 78]),
                     "prot": [N.lst(lat[(3 * t + 9) % 26]), ANGLES[3 + (t + 3) % 8]],
+                    "core": [0, 1, 2] if na >= 3 else list(range(na)),
                 }
                 exec_histens(ctx, case)
                 exec_histens(ctx, dict(case, touch=True))
@@ -1995,7 +1996,7 @@ def run(ctx):
             "dihedral_targets": len(TARGETS),
             "poses": len(N.POSES),
             "molecules": MOLS_THOROUGH if thorough else MOLS_QUICK,
-            "ensembles": ENS_ALL,
+            "ensembles": ENS_ALL + SHAPE_ENS,
         }
     )
     parts = []
